@@ -303,12 +303,25 @@ func identOf(e ast.Expr) *ast.Ident {
 // hasKnownSize reports whether types.Sizes.Sizeof can be asked about typ.
 // Type parameters have no size, and neither do untyped types (untyped nil,
 // the untyped bool of a comparison): Sizeof panics on both.
+// The size of an array or a struct is computed from its elements and fields,
+// so [4]T and struct{ x T } have no size when T has none.
 func hasKnownSize(typ types.Type) bool {
+	typ = types.Unalias(typ)
 	if isTypeParam(typ) {
 		return false
 	}
 	if basic, ok := typ.(*types.Basic); ok && basic.Info()&types.IsUntyped != 0 {
 		return false
+	}
+	switch u := typ.Underlying().(type) {
+	case *types.Array:
+		return hasKnownSize(u.Elem())
+	case *types.Struct:
+		for i := 0; i < u.NumFields(); i++ {
+			if !hasKnownSize(u.Field(i).Type()) {
+				return false
+			}
+		}
 	}
 	return true
 }
